@@ -63,4 +63,17 @@ theorem pinned_order_dependent :
 
 example : daysFromCivil 1970 1 1 = 0 ∧ daysFromCivil 2000 3 1 = 11017 ∧ daysFromCivil 1900 3 1 = -25508 := by decide
 
+/-- timestamps of different locations never share a bucket: the truncated time keeps the location
+(so a frame mixing zones gets one bucket per zone and wall-clock start, never a merged one) -/
+theorem different_location_different_bucket (q : Freq) (a b : GoTime) (h : a.off ≠ b.off ∨ a.zone ≠ b.zone) :
+    truncate q a ≠ truncate q b := by
+  intro heq
+  have h1 : (truncate q a).off = a.off := by cases q <;> rfl
+  have h2 : (truncate q b).off = b.off := by cases q <;> rfl
+  have h3 : (truncate q a).zone = a.zone := by cases q <;> rfl
+  have h4 : (truncate q b).zone = b.zone := by cases q <;> rfl
+  rcases h with h | h
+  · exact h (by rw [← h1, ← h2, heq])
+  · exact h (by rw [← h3, ← h4, heq])
+
 end Goframe.C18
